@@ -87,7 +87,8 @@ type Case struct {
 	Opts  opts   `json:"opts"`
 }
 type result struct {
-	kind    string // ok | nopending | notclean | nobaseline | missing | nonlinear
+	kind    string // ok | nopending | notclean | missing | nonlinear | refused (an error without exported type: baseline not found)
+	msg     string // evidence only: text-derived class of an untyped error, never part of a verdict or key
 	pending []string
 	ooo     []string
 }
@@ -132,7 +133,9 @@ func model(files []file, revs []rev, o opts) result {
 				}
 			}
 			if !found {
-				return result{kind: "nobaseline"}
+				// baseline not found: the only possible answer is a refusal; it has no exported
+				// error type and its wording is not part of the property.
+				return result{kind: "refused"}
 			}
 			return fin(p)
 		}
@@ -264,10 +267,13 @@ func real(files []file, revs []rev, o opts) result {
 			res = result{kind: "missing"}
 		case errors.As(err, &nc):
 			res = result{kind: "notclean"}
-		case strings.Contains(err.Error(), "baseline version"):
-			res = result{kind: "nobaseline"}
 		default:
-			res = result{kind: "err:" + err.Error()}
+			// Any other error is a refusal (nothing is returned to run); which one is decided by the
+			// model: it says "refused" only where a refusal is the only possible answer.
+			res = result{kind: "refused", msg: "other"}
+			if strings.Contains(err.Error(), "baseline") {
+				res.msg = "baseline"
+			}
 		}
 	}()
 	return res
@@ -434,6 +440,9 @@ func check(c *rt.Ctx, cs Case, sample bool) {
 		return
 	}
 	c.Count("kind:"+strings.SplitN(r.kind, ":", 2)[0], 1)
+	if r.msg != "" {
+		c.Count("msg-class:"+r.msg, 1)
+	}
 	c.Eval(rt.Digest(cs, r.String()), true)
 	if m.String() != r.String() {
 		key := "pending|model=" + m.kind + "|real=" + strings.SplitN(r.kind, ":", 2)[0]
